@@ -71,8 +71,10 @@ def walk(fn, valuation: Dict[str, bool], norm: Callable[[ast.AST], str], max_ste
             # atoms are stated on the function's parameters; a local holding such a test is expanded through env
             etxt = norm(_Sub(env).visit(clone(core)))
             val = None
+            if isinstance(core, ast.Constant):
+                val = bool(core.value)          # `if False:` / `if 1:` need no hypothesis
             for k in (txt, etxt):
-                if k in valuation:
+                if val is None and k in valuation:
                     val = valuation[k]
                     break
             if val is None:
@@ -100,10 +102,12 @@ def walk(fn, valuation: Dict[str, bool], norm: Callable[[ast.AST], str], max_ste
                 vals = [_Sub(env).visit(clone(v)) for v in a.value.elts]
                 for t, v in zip(a.targets[0].elts, vals):
                     env[t.id] = v
-            elif isinstance(a, ast.Assign) and len(a.targets) == 1 and isinstance(a.targets[0], ast.Tuple) and len(a.targets[0].elts) == 1 \
-                    and isinstance(a.targets[0].elts[0], ast.Name):
-                # `x, = call(...)` unpacks a one-element result
-                env[a.targets[0].elts[0].id] = ast.Subscript(value=_Sub(env).visit(clone(a.value)), slice=ast.Constant(value=0), ctx=ast.Load())
+            elif isinstance(a, ast.Assign) and len(a.targets) == 1 and isinstance(a.targets[0], ast.Tuple) and not isinstance(a.value, ast.Tuple) \
+                    and all(isinstance(t, ast.Name) for t in a.targets[0].elts):
+                # `x, y = call(...)` unpacks the components of one result
+                val = _Sub(env).visit(clone(a.value))
+                for k_, t in enumerate(a.targets[0].elts):
+                    env[t.id] = ast.Subscript(value=clone(val), slice=ast.Constant(value=k_), ctx=ast.Load())
             elif isinstance(a, ast.AugAssign) and isinstance(a.target, ast.Name):
                 cur = env.get(a.target.id, ast.Name(id=a.target.id, ctx=ast.Load()))
                 env[a.target.id] = ast.BinOp(left=clone(cur), op=a.op, right=_Sub(env).visit(clone(a.value)))
